@@ -6,8 +6,8 @@ semantics ref/rv32.step from a fully symbolic machine state (31 registers, pc, m
   frame             every x-register that the step changes is in the instruction's real
                     defined_registers (+ clobbers);
   non-interference  a second state that agrees with the first on the real used_registers (and on pc, sp,
-                    memory) yields the same next pc, the same memory and the same values in the defined
-                    registers.
+                    memory) and is arbitrary (inputs z1..z31) on every other register yields the same next
+                    pc, the same memory and the same values in the defined registers.
 """
 import os
 import z3
@@ -27,6 +27,8 @@ BOUNDS = {
               "instruction classes": "every non-system class of ppci.arch.riscv.instructions / rvc_instructions with syntax + tokens"},
 }
 BOUNDS["thorough"] = dict(BOUNDS["quick"])
+BOUNDS["thorough"]["immediates"] = BOUNDS["quick"]["immediates"].replace("2**33", "2**48")
+BOUNDS["thorough"]["branch/jump distance"] = BOUNDS["quick"]["branch/jump distance"].replace("twice", "16 times")
 OUTSIDE = ["arm, thumb, m68k, mips, x86_64 (no ISA model)", "F/D floating-point and CSR/system instructions (csr*, rdcycle*, ebreak, mret)",
            "pseudo-instructions without an encoding of their own; extra_uses/extra_defs/clobbers that the code generator attaches "
            "to individual call instructions (instances are built the way the assembler builds them)",
@@ -54,12 +56,13 @@ class AnnotationHarness(_rv.EncodeHarness):
         d = self.operand_inputs(mk)
         for i in range(1, 32):
             d[f"x{i}"] = mk.int(f"x{i}", 0, M32)
-            d[f"y{i}"] = mk.int(f"y{i}", 0, M32)
+            d[f"z{i}"] = mk.int(f"z{i}", 0, M32)
         d["pc"] = mk.int("pc", 0, M32 - 1)
         mk.assume(d["pc"] % 2 == 0)
         for k in range(8):
             d[f"m{k}"] = mk.int(f"m{k}", 0, 255)
         d["probe"] = mk.int("probe", 0, M32)
+        d["k"] = mk.int("k", 1, 31)
         return d
 
     def run(self, i):
@@ -76,13 +79,33 @@ class AnnotationHarness(_rv.EncodeHarness):
             return {"instruction-length": False}
         word = _rv.le(data)
         mem = [i[f"m{k}"] for k in range(8)]
-        sa = rv32.make_state([0] + [i[f"x{k}"] for k in range(1, 32)], i["pc"], membytes=mem)
-        sb = rv32.make_state([0] + [i[f"y{k}"] for k in range(1, 32)], i["pc"], membytes=mem)
-        if sa.ops is not sb.ops or (sa.ops.sym and not isinstance(word, core.SymInt) and False):
-            raise AssertionError("mixed concrete/symbolic state")
+        xs = [0] + [i[f"x{k}"] for k in range(1, 32)]
+        zs = [0] + [i[f"z{k}"] for k in range(1, 32)]
+        shared = list(used) + [2]          # registers the two states agree on: declared reads + sp
+        symbolic = any(type(v) is not int for v in xs + zs + mem + shared + [word, i["pc"], i["probe"], i["k"]])
+        if symbolic:
+            # register files as z3 arrays tied to the declared inputs (keeps symbolic register numbers cheap);
+            # state B reads X on the shared registers and Z elsewhere
+            bv5 = z3.BitVecSort(5)
+            X, Z = z3.Array("X", bv5, z3.BitVecSort(32)), z3.Array("Z", bv5, z3.BitVecSort(32))
+            link = [z3.Select(A, z3.BitVecVal(k, 5)) == core.to_bv(v[k], 32)
+                    for A, v in ((X, xs), (Z, zs)) for k in range(1, 32)]
+            sh5 = [z3.simplify(core.to_bv(u, 5)) for u in shared]
+
+            def mixed(j):
+                c = z3.simplify(z3.Or(*[j == u for u in sh5]))
+                return z3.If(c, z3.Select(X, j), z3.Select(Z, j))
+            sa = rv32.make_state(rv32.RegArray(X), core.to_bv(i["pc"], 32), membytes=mem)
+            sb = rv32.make_state(rv32.RegArray(fn=mixed), core.to_bv(i["pc"], 32), membytes=mem)
+        else:
+            link = []
+            ys = [xs[k] if k in shared else zs[k] for k in range(32)]
+            sa = rv32.make_state(xs, i["pc"], membytes=mem)
+            sb = rv32.make_state(ys, i["pc"], membytes=mem)
         o = sa.ops
         ta = rv32.step(sa, word, len(data))
         tb = rv32.step(sb, word, len(data))
+        rr = rv32.read_reg
 
         def member(k, nums):
             cs = [o.eq(o.val(n), o.val(k)) for n in nums]
@@ -91,18 +114,21 @@ class AnnotationHarness(_rv.EncodeHarness):
         def imp(a, b):
             return o.or_(o.not_(a), b)
 
-        frame = [o.or_(o.eq(ta.x[k], sa.x[k]), member(k, defined)) for k in range(1, 32)]
-        agree = [imp(member(k, list(used) + [2]), o.eq(sa.x[k], sb.x[k])) for k in range(1, 32)]
+        k = o.val(i["k"])
+        frame = o.or_(o.eq(rr(ta, k), rr(sa, k)), member(k, defined))
+        same_regs = [o.eq(rr(ta, o.val(d)), rr(tb, o.val(d))) for d in defined]
         probe = o.val(i["probe"])
-        same_regs = [imp(member(k, defined), o.eq(ta.x[k], tb.x[k])) for k in range(1, 32)]
         same_pc = o.eq(ta.pc, tb.pc)
         same_mem = o.eq(ta.mem.load_byte(probe), tb.mem.load_byte(probe))
-        legal = o.and_(ta.legal, o.not_(ta.system))
-        prem = o.and_(legal, *agree)
-        return {"frame: only defined registers change": _wrap(imp(legal, o.and_(*frame))),
-                "non-interference: defined registers": _wrap(imp(prem, o.and_(*same_regs))),
-                "non-interference: next pc": _wrap(imp(prem, same_pc)),
-                "non-interference: memory": _wrap(imp(prem, same_mem))}
+        legal = o.and_(ta.legal, o.not_(ta.system), *link)
+        docprem = self.imm_premise(i, printed)
+        if symbolic:
+            docprem = core.tobool(docprem)
+        return {"executes: bytes are an RV32IMC instruction (C08)": _wrap(imp(o.and_(docprem, *link), ta.legal)),
+                "frame: only defined registers change": _wrap(imp(legal, frame)),
+                "non-interference: defined registers": _wrap(imp(legal, o.and_(True, *same_regs))),
+                "non-interference: next pc": _wrap(imp(legal, same_pc)),
+                "non-interference: memory": _wrap(imp(legal, same_mem))}
 
 
 def mk_ann(**kw):
@@ -139,7 +165,7 @@ def mk_selftest():
 def jobs(tier, seed):
     js = [("mk_selftest", {})]
     for (arch, idx, cls, mn, ks) in claimed():
-        js.append(("mk_ann", dict(arch=arch, idx=idx, cls=cls, mn=mn, ks=ks)))
+        js.append(("mk_ann", dict(arch=arch, idx=idx, cls=cls, mn=mn, ks=ks, wide=int(tier == "thorough"))))
     only = os.environ.get("VERIF_ONLY")
     if only:
         js = [j for j in js if only in repr(j)]
